@@ -306,7 +306,12 @@ def k_id_hvh(inp, chk):
     for name, dec, enc in (("addr", A.Address.convert_from_hex, A.Address.convert_to_hex), ("fn", A.hex_id_to_dev_id, A.dev_id_to_hex_id)):
         i = dec(h)
         chk(len(i) == 9, f"id:{name}:len")
-        chk(enc(i) == h, f"id:{name}:h->v->h")
+        try:
+            back = enc(i)
+        except Exception as e:  # noqa: BLE001  the encoder refuses what the decoder produced: not a bijection
+            chk(False, f"id:{name}:h->v->h", f"encoder raised {type(e).__name__}")
+            continue
+        chk(back == h, f"id:{name}:h->v->h")
     return "ok"
 
 
@@ -354,7 +359,7 @@ def _q(name, kernel, build, mode="int", secs=300, group=None, weight=1.0, canary
     def fn(ctx):
         inp = build(ctx)
         if canary:
-            def chk(cond, label):
+            def chk(cond, label, info=None):
                 return ctx.check(False if canary == "all" else cond, label)
         else:
             chk = ctx.check
@@ -516,7 +521,7 @@ def replay(item):
         inp["flags"] = [inp[f"b{i}"] for i in range(8)]
     failed = []
 
-    def chk(cond, label):
+    def chk(cond, label, info=None):
         if not cond:
             failed.append(label)
         return bool(cond)
